@@ -28,6 +28,15 @@ RULE_SEQ = (
     "cost stream with a turn table added. I = float bits of every call, M = the (pure) Gallina model call by call, S = every call "
     "judged for its OWN arguments by the rational specification (= what a fresh model returns). non-trivial = an edge_cost with a "
     "pair follows an access_cost of a different pair with the same next edge; distinct by (configuration, calls)")
+RULE_SVC = (
+    "query SEQUENCES on ONE CostModelService built by CostModelBuilder::build from configuration JSON: 2-5 service.build(query, "
+    "state_model) calls whose queries carry identical `weights` overrides (or none) but different `vehicle_rates` / "
+    "`cost_aggregation` overrides, in both orders, plus queries with different weights; per query the traversal_cost and edge_cost of "
+    "the model built for it. 10 deterministic sequences first (the C07-17 witness: plain / factor override / mul override in every "
+    "order, with and without an explicit identical weights override; a service configured with mul), then random configurations of "
+    "the cost stream. M = the model of CostModelService::build per query, S = every query judged for ITS OWN overrides by the "
+    "rational specification (= the value from a fresh service). non-trivial = two queries of the sequence have the same weights "
+    "override and differ in vehicle_rates or cost_aggregation; distinct by (configuration, queries)")
 RULE_BUILDER = (
     "network rates built by the REAL NetworkCostRateBuilder from CSV files the harness writes (leaf builders read from configuration "
     "JSON {type: traversal_lookup|access_lookup, cost_input_file}, `combined` assembled from its members, nesting <= 3, 0-22 tables, "
@@ -121,10 +130,11 @@ def run(chk):
             only = json.load(open(chk.replay)).get("stream")
         except Exception:  # noqa
             only = None
-        if only not in ("cost", "seq", "builder"):
+        if only not in ("cost", "seq", "svc", "builder"):
             only = "cost"
     for stream, rule, n in (("cost", RULE, 1500 if quick else 20000),
                             ("seq", RULE_SEQ, 400 if quick else 5000),
+                            ("svc", RULE_SVC, 300 if quick else 4000),
                             ("builder", RULE_BUILDER, 400 if quick else 5000)):
         if only not in (None, stream):
             continue
